@@ -154,7 +154,12 @@ def plant(r, stmts, shell):
         return kind, stmts, True
     if kind == 'spaces':
         bad = r.choice([seq(lit('pa'), lit('pb')), alt(lit('pc'), seq(lit('pa'), lit('pb'))),
-                        seq(lit('pa'), lit('pb'), nt('PU')), opt(seq(lit('pa'), lit('pb')))])
+                        seq(lit('pa'), lit('pb'), nt('PU')), opt(seq(lit('pa'), lit('pb'))),
+                        # the left neighbour is itself compound: the literal that touches `pb` is its last item
+                        ('seq', (('seq', (lit('px'), cmd('echo s'), lit('pa'))), lit('pb'))),
+                        ('seq', (('seq', (cmd('echo s'), lit('pa'))), lit('pb'))),
+                        ('seq', (('word', (lit('px'), cmd('echo s'), lit('pa'))), lit('pb'))),
+                        ('seq', (lit('pa'), ('seq', (lit('pb'), cmd('echo s'), lit('py')))))])
         depth = r.choice([0, 1, 2, 3])
         e = bad
         for i in range(depth):
